@@ -666,7 +666,12 @@ Definition nif_body2 (again : D unit) (pkt : option pdu) : D unit :=
   when b check_limit_handling ;;;
   b <- step_is DS_WAITING_FOR_MISSING_DATA ;;
   when b
-    ((match pkt with Some (PEof _ _ _ _ _) => prepare_eof_ack_packet | _ => ret tt end) ;;;
+    ((match pkt with
+      | Some (PEof _ cond ck sz _) =>
+          if cond =? C_NO_ERROR then prepare_eof_ack_packet
+          else (setp (fun p => p <| p_deferred := false |>) ;;; handle_eof_pdu cond ck sz)
+      | _ => ret tt
+      end) ;;;
      (match pkt with
       | Some (PFileData _ off data) =>
           handle_fd_pdu off data ;;;
@@ -737,16 +742,25 @@ Proof.
   intros s4 W4.
   apply section_ok; [exact W4 | |].
   { intros s0 W0 S0.
-    eapply postx_bind with (Q1 := fun _ s5 => dest_wf s5 /\ d_state s5 <> ST_IDLE) (E1 := NoE).
-    { unfold prepare_eof_ack_packet, add_packet. destruct pkt as [[ | | | | | | | ]|]; dauto. }
-    { intros e s' []. }
-    intros u5 s5 [W5 N5]. cbv beta.
-    eapply postx_bind with (Q1 := fun _ s6 => dest_wf s6) (E1 := E0).
-    { destruct pkt as [[ | | | | | | | ]|]; try (mfin; exact W5).
-      dcall handle_fd_pdu_ok; [exact W5 | exact N5 | intros e s' H; exact H |].
-      intros u6 s6 W6. unfold reset_nak_activity_parameters. dauto. }
-    { intros e s' H; exact H. }
-    intros u6 s6 W6. apply deferred_ok. apply wf_dls_pre. exact W6. }
+    assert (d_state s0 <> ST_IDLE) as N0 by dsolve.
+    destruct pkt as [[h off data| |h c ck sz fl| | | | | ]|];
+      try (rewrite !b_ret; apply deferred_ok; apply wf_dls_pre; exact W0).
+    - rewrite b_ret.
+      eapply postx_bind with (Q1 := fun _ s6 => dest_wf s6) (E1 := E0).
+      { dcall handle_fd_pdu_ok; [exact W0 | exact N0 | intros e s' H; exact H |].
+        intros u6 s6 W6. unfold reset_nak_activity_parameters. dauto. }
+      { intros e s' H; exact H. }
+      intros u6 s6 W6. apply deferred_ok. apply wf_dls_pre. exact W6.
+    - (* a re-sent EOF is acknowledged; an EOF (cancel) gets the Cancel Response Procedures (F33 repair) *)
+      eapply postx_bind with (Q1 := fun _ s5 => dest_wf s5) (E1 := E0).
+      { destruct (c =? C_NO_ERROR).
+        - eapply postx_weaken with (Q1 := fun _ s5 => dest_wf s5 /\ d_state s5 <> ST_IDLE) (E1 := NoE).
+          + unfold prepare_eof_ack_packet, add_packet. dauto.
+          + intros a s' [H _]; exact H.
+          + intros e s' [].
+        - mrun. apply handle_eof_pdu_ok; dsolve. }
+      { intros e s' H; exact H. }
+      intros u5 s5 W5. rewrite b_ret. apply deferred_ok. apply wf_dls_pre. exact W5. }
   intros s5 W5.
   eapply nif_tail_ok with (R := True); [exact Hag | exact W5 | left; exact I].
 Qed.
